@@ -1455,10 +1455,10 @@ fn run(opts: &Opts, acc: &mut Acc) {
 
     // (7) random
     let scale = match (opts.tier, dbg) {
-        (Tier::Quick, false) => 1,
+        (Tier::Quick, false) => 5,
         (Tier::Quick, true) => 1,
-        (Tier::Thorough, false) => 40,
-        (Tier::Thorough, true) => 8,
+        (Tier::Thorough, false) => 150,
+        (Tier::Thorough, true) => 16,
     };
     random_genomes(acc, opts, "arith-random", 6_000 * scale, 64, random_arith);
     random_genomes(acc, opts, "accessor-random", (if dbg { 1_500 } else { 4_000 }) * scale, 64, random_accessor);
@@ -1521,5 +1521,15 @@ fn replay(_opts: &Opts, d: &Value, acc: &mut Acc) {
                 acc.inconclusive.push(format!("bad C16 replay file (kind {:?})", kind));
             }
         }
+    }
+}
+
+/// libFuzzer entry: the first byte selects arithmetic / accessors / unit conversion
+pub fn fuzz_case(genome: &[u8], acc: &mut Acc) -> Vec<Failure> {
+    let Some((k, rest)) = genome.split_first() else { return vec![] };
+    match k % 3 {
+        0 => random_arith(rest, acc),
+        1 => random_accessor(rest, acc),
+        _ => random_uom(rest, acc),
     }
 }
